@@ -14,7 +14,7 @@ import (
 
 func init() {
 	register(&Prop{ID: "C08", Run: runC08, MinNontrivial: 200,
-		Rule: "cases = conforming IdP responses drawn from PCG(seed,class,index): 1-3 assertions, signature on Response/assertions/both by a store member (RSA/ECDSA), 8 canonicalisations x 4 digests, 4 prefix styles x pretty-printing x quote style x attribute order x XML declaration x comments x CDATA/char-ref/comment text tricks, value strings from 9 classes (markup, whitespace, CR, BMP, astral, look-alikes, empty, long), 0-30 attributes x 0-5 values incl. duplicate names, raw or DEFLATE (6 levels), plain or encrypted; non-trivial = accepted or rejected after signature processing (i.e. got past parsing); distinct by hash of the case description; plus the store-rollover class of C02 for SSO responses; trailing comments tuned to inflated = 8/16/32 x compressed length",
+		Rule: "cases = conforming IdP responses drawn from PCG(seed,class,index): 1-3 assertions, signature on Response/assertions/both by a store member (RSA/ECDSA), 8 canonicalisations x 4 digests, 4 prefix styles x pretty-printing x quote style x attribute order x XML declaration x comments x CDATA/char-ref/comment text tricks, value strings from 9 classes (markup, whitespace, CR, BMP, astral, look-alikes, empty, long), 0-30 attributes x 0-5 values incl. duplicate names, raw or DEFLATE (6 levels), plain or encrypted; non-trivial = accepted or rejected after signature processing (i.e. got past parsing); distinct by hash of the case description; plus the store-rollover class of C02 for SSO responses; trailing comments tuned to inflated = 8/16/32 x compressed length; accessor probes with every friendly name, name format, value and near-name of the assertion as absent names; the provider's outbound-only settings set at random in a third of the cases; NameIDs of 90 - 250 non-ASCII characters; identifiers over the whole NCName repertoire",
 		Assumptions: []string{"the IdP simulator's canonical bytes come from goxmldsig's Canonicalizer objects (a canonicaliser bug shared by signer and verifier is invisible)",
 			"genuine documents stay under goxmldsig's 1000-element traversal budget", "xsi:type is not compared (never decoded by the library)",
 			"encrypted assertions are signed with exclusive c14n only (an assertion signed standalone and re-attached under a Response that declares further prefixes cannot verify with inclusive c14n)"}})
@@ -57,6 +57,11 @@ func checkGenuine(cs *mon.Case, w *World, g *Genuine) (string, string) {
 	r := cs.Rand()
 	sp, _, _ := SPFor(r, w, g.Signer)
 	sp.AllowMissingAttributes = !g.Rec.Assertions[0].HasAttrStmt
+	if r.IntN(3) == 0 {
+		cs.Note("outbound-only settings: %s", RandomiseUnrelated(r, sp))
+	} else {
+		sp.IsPassive, sp.ForceAuthn, sp.NameIdFormat, sp.RequestedAuthnContext = false, false, "", nil
+	}
 	resp, err := sp.ValidateEncodedResponse(enc)
 	if err != nil {
 		cs.Outcome("rejected")
@@ -187,9 +192,22 @@ func checkValues(vals saml2.Values, a0 *sim.Assertion) string {
 			return fmt.Sprintf("GetAll(%q)=%q is none of the signed value lists %q", name, got, cands)
 		}
 	}
-	absent := "no-such-attribute-\x01"
-	if vals.Get(absent) != "" || len(vals.GetAll(absent)) != 0 || vals.GetSize(absent) != 0 {
-		return "accessors invent a value for an absent name"
+	// names that no attribute has: a made-up one, and everything else the assertion says about its attributes
+	// (friendly names, name formats, values) or that is near a real name
+	absent := []string{"no-such-attribute-\x01", ""}
+	for _, at := range a0.Attrs {
+		absent = append(absent, strOr(at.FriendlyName), strOr(at.NameFormat), strings.ToUpper(strOr(at.Name)), strOr(at.Name)+" ", " "+strOr(at.Name))
+		for _, v := range at.Values {
+			absent = append(absent, v.Value)
+		}
+	}
+	for _, name := range absent {
+		if _, real := byName[name]; real {
+			continue
+		}
+		if vals.Get(name) != "" || len(vals.GetAll(name)) != 0 || vals.GetSize(name) != 0 {
+			return fmt.Sprintf("accessors invent a value for the absent name %q: Get=%q GetAll=%q GetSize=%d", name, vals.Get(name), vals.GetAll(name), vals.GetSize(name))
+		}
 	}
 	var nilv saml2.Values
 	if nilv.Get("x") != "" || len(nilv.GetAll("x")) != 0 || nilv.GetSize("x") != 0 {
